@@ -462,3 +462,26 @@ func ZZ_C12_message() {
 	}
 	rt.Reach("end")
 }
+
+// ZZ_C12_varname_idx: names with an index accessor followed by k arbitrary bytes:
+// "a[" digit "]" + suffix is a name only if the suffix is empty or further "[digits]".
+func ZZ_C12_varname_idx() {
+	k, kind := rt.Param("k"), rt.Param("kind")
+	d := rt.Byte("d")
+	rt.Assume(rt.And(d >= '0', d <= '9'))
+	name := "a[" + string([]byte{d}) + "]" + rt.String("s", k)
+	want := zzNameOK(name)
+	var p bool
+	switch kind {
+	case 0:
+		p = rt.Try(func() { NewIntNode(2, name) })
+	case 1:
+		p = rt.Try(func() { NewListNode(NewIntNode(1, 1), name) })
+	case 2:
+		p = rt.Try(func() { NewASCIINodeVariable(name, 0, -1) })
+	case 3:
+		p = rt.Try(func() { NewIntNode(1, "q").FillVariables(map[string]interface{}{"q": name}) })
+	}
+	rt.Assert(p == !want, "varname:index-suffix-grammar")
+	rt.Reach("end")
+}
